@@ -1,8 +1,10 @@
 """C03 — devices see exactly the latest upstream values along the declared wiring."""
 from . import simprop
+import scenario as S
 
-MODULES = ['TickitModel.Props.C03', 'TickitModel.Props.C03Nested', 'TickitModel.Props.FlatInt', 'TickitModel.Props.C03NestedInt', 'TickitModel.Props.C08NestedAnyRun']
-THEOREMS = ['synced_init', 'synced_tick', 'inputs_latest', 'synced_run', 'flat_sim_is_flatRun', 'nested_refines_flatRun', 'nested_inputs_synced', 'synced_runI', 'inputs_latest_tickI', 'inputs_latest_runI', 'flatRun_is_flatRunI', 'flat_sim_is_flatRunI', 'nested_refines_flatRunI', 'nested_inputs_synced_int', 'any_order_run_refines_flatRun', 'any_order_run_inputs_synced']
+MODULES = ['TickitModel.Props.C03', 'TickitModel.Props.C03Nested', 'TickitModel.Props.FlatInt', 'TickitModel.Props.C03NestedInt', 'TickitModel.Props.C08NestedAnyRun', 'TickitModel.Props.C08NestedInterRun']
+THEOREMS = ['synced_init', 'synced_tick', 'inputs_latest', 'synced_run', 'flat_sim_is_flatRun', 'nested_refines_flatRun', 'nested_inputs_synced', 'synced_runI', 'inputs_latest_tickI', 'inputs_latest_runI', 'flatRun_is_flatRunI', 'flat_sim_is_flatRunI', 'nested_refines_flatRunI', 'nested_inputs_synced_int', 'any_order_run_refines_flatRun', 'any_order_run_inputs_synced',
+            'interleaved_run_refines_flatRun']
 ANCHORS = ["src/tickit/core/management/event_router.py", "src/tickit/core/management/ticker.py",
            "src/tickit/core/components/device_component.py", "src/tickit/core/management/schedulers/nested.py",
            "src/tickit/core/components/system_component.py"]
@@ -54,6 +56,20 @@ def many_diamonds(k=12):
     return {"components": comps, "t0": 0, "speed": [1, 1], "n_ticks": 2 * k + 1}
 
 
+def relay_scenarios():
+    """pass-through devices that return the very mapping they were given as their outputs, between a changing source
+    and sinks, flat and inside a system"""
+    MS = 1_000_000
+    d = lambda n, ins=None, cb=None, **beh: {"name": n, "kind": "dev", "inputs": ins or {},   # noqa: E731
+                                             "beh": dict({"outs": [{"port": "o", "kind": "counter", "v": 0, "mod": 7, "step": 1}], "cb": cb or {"kind": "none"}}, **beh)}
+    flat = {"components": [d("ramp", cb={"kind": "period", "p": MS}), d("relay", {"in": ["ramp", "o"]}, relay=True, outs=[{"port": "in", "kind": "const", "v": 0}]),
+                           d("relay2", {"x": ["relay", "in"], "y": ["ramp", "o"]}, relay=True, outs=[{"port": "x", "kind": "const", "v": 0}, {"port": "y", "kind": "const", "v": 0}]),
+                           d("sink", {"a": ["relay", "in"], "b": ["relay2", "x"], "c": ["relay2", "y"]})], "t0": 0, "speed": [1, 1], "n_ticks": 6}
+    import random as _r
+    nested = S.group_into_system(_r.Random(0), {k: (v if k != "components" else [dict(c) for c in v]) for k, v in flat.items()}, ["relay", "relay2"], "rsys")
+    return [flat] + ([nested] if nested is not None else [])
+
+
 def run(tier, seed, drv):
     from sim import run_scenario
     from . import simcommon as SC
@@ -64,6 +80,12 @@ def run(tier, seed, drv):
         res.case("many-diamonds" + b, nontrivial=True)
         res.count("many-diamonds")
         SC.check_run(scn, run_, drv, res, monitors_on=MON, corr=CORR, case_extra={"bus": b, "held_seed": seed})
+    for scn in relay_scenarios():
+        for b in ("sync", "held", "internal"):
+            run_ = run_scenario(scn, bus=b, seed=seed)
+            res.case(SC.scn_key(scn) + b, nontrivial=True)
+            res.count("relay-devices")
+            SC.check_run(scn, run_, drv, res, monitors_on=MON, corr=CORR, case_extra={"bus": b, "held_seed": seed})
     for scn in iobox_scenarios():
         for b in ("sync", "held"):
             run_ = run_scenario(scn, bus=b, seed=seed)
